@@ -629,14 +629,17 @@ func (g *gen) writeFuncImplArgChecks(b *buffer, n *a.Func) error {
 		b.writes(c)
 	}
 	b.writes(") {\n")
-	b.writes("self->private_impl.magic = WUFFS_BASE__DISABLED;\n")
-	if g.currFunk.astFunc.Effect().Coroutine() {
-		b.writes("return wuffs_base__make_status(wuffs_base__error__bad_argument);\n")
-	} else {
-		// TODO: don't assume that the return type is empty.
-		b.printf("return wuffs_base__make_empty_struct();\n")
+	if !n.Effect().Pure() {
+		// Pure methods have a const-qualified receiver.
+		b.writes("self->private_impl.magic = WUFFS_BASE__DISABLED;\n")
 	}
-	b.writes("}\n")
+	b.writes("return ")
+	if n.Effect().Coroutine() || ((n.Out() != nil) && n.Out().IsStatus()) {
+		b.writes("wuffs_base__make_status(wuffs_base__error__bad_argument)")
+	} else if err := writeOutParamZeroValue(b, g.tm, n.Out()); err != nil {
+		return err
+	}
+	b.writes(";\n}\n")
 	return nil
 }
 
